@@ -299,7 +299,14 @@ void gen_c06(Gen &g) {
       t.ops.push_back(so);
     }
     int style = (int)r.below(4);
+    size_t first_piece = t.ops.size();
     emit_split(g, t, 0, prog, style == 0 ? 0 : style == 1 ? 1 : 1, style == 1 ? 1 : 3);
+    if (r.chance(1, 8))  // some pieces arrive through the counting entry point (same bytes as plain assembly)
+      for (size_t q = first_piece; q < t.ops.size(); q++)
+        if (t.ops[q].kind == OP_ASM && r.coin()) {
+          t.ops[q].kind = OP_COUNT;
+          t.ops[q].c = r.chance(1, 6) ? r.range(-1, 1) : r.range(2, 40);
+        }
     if (r.chance(1, 3)) {
       // repetition on the same instance: the caller may have overwritten its buffer and changed options meanwhile
       if (!internal && r.chance(2, 3)) {
@@ -750,7 +757,7 @@ void gen_c13(Gen &g) {
     cfg.n_lo = 12000;
     cfg.n_hi = 20000;
     cfg.c_dense_hi = 48;
-    cfg.c_sparse_hi = 5000;
+    cfg.c_sparse_hi = 9000;  // also beyond the capacity of a new library-managed buffer
   }
   gen_history_task(g, t, cfg);
   p.tasks.push_back(t);
@@ -1062,6 +1069,28 @@ void gen_c08(Gen &g) {
   for (Op &op : t.ops)
     if (op.kind == OP_ASM || op.kind == OP_COUNT) op.alias = false;
   t.ops.push_back(g.mk(OP_EXEC, 0));
+  if (!huge && r.chance(1, 4)) {
+    // a second library-managed instance of the same process, younger than the first, growing on its own
+    Op c2 = mk_create(g, 1, -1);
+    c2.twin = true;
+    long tgt2 = lib_geometry().step * r.range(1, 3) + r.range(-25, 25);
+    std::vector<std::string> prog2 = gen_exec_program(r, 0, opt_index(2, 1, 1), tgt2);
+    size_t at = t.ops.size();
+    std::vector<Op> tmp;
+    {
+      Task t2;
+      emit_split(g, t2, 1, prog2, 1, (int)r.range(50, 1500));
+      tmp = t2.ops;
+    }
+    // created either after the first instance has grown or before: insert the create at a random earlier point
+    size_t cpos = 1 + r.below(at);
+    t.ops.insert(t.ops.begin() + (long)cpos, c2);
+    for (Op &o2 : tmp) {
+      o2.alias = false;
+      t.ops.push_back(o2);
+    }
+    t.ops.push_back(g.mk(OP_EXEC, 1));
+  }
   if (r.chance(1, 3)) {
     // rewind and assemble a second program over the first
     Op so = g.mk(OP_OFFSET, 0);
@@ -1223,7 +1252,8 @@ void gen_c19(Gen &g) {
       so.k = -2;  // resolved by the runner: "a random offset within what has been written" is not known here
       // choose small offsets that are certainly within the written part only after a successful call;
       // the runner skips set_offset calls outside the domain.
-      so.k = (long)r.below(40);
+      static const long pagey[] = {4095, 4096, 4097, 8192, 12288, 1024, 2048};
+      so.k = r.chance(1, 3) ? pagey[r.below(7)] : (long)r.below(40);  // (skipped by the runner when nothing has been written there yet)
       t.ops.push_back(so);
       Op b = g.mk(OP_BIN_FILE, 0);
       unsigned pw = (unsigned)r.below(12);
